@@ -1,0 +1,299 @@
+//! Verification hooks (compiled only with `--cfg actix_net_verif`).
+//!
+//! * worker-side ends of a handle pair, so a harness can play the worker against the real
+//!   accept-side handle, counter and waker queue;
+//! * an in-thread `ServerWorker` built from scripted services so its `poll` can be driven step by
+//!   step under paused time;
+//! * the counter and availability kernels for kernel-agreement checks.
+
+use std::{
+    future::Future,
+    io::{self, Read},
+    pin::Pin,
+    task::{Context, Poll},
+    time::Duration,
+};
+
+use actix_service::Service;
+use actix_utils::future::{ready, Ready};
+use futures_core::future::LocalBoxFuture;
+use tokio::sync::{
+    mpsc::{unbounded_channel, UnboundedReceiver},
+    oneshot,
+};
+
+use super::{
+    handle_pair, Conn, Counter, ServerWorker, Stop, WorkerCounter, WorkerCounterGuard,
+    WorkerHandleServer, WorkerService, WorkerServiceStatus, WorkerState,
+};
+use crate::{
+    accept::verif::{AcceptHandle, WakerHandle},
+    availability::Availability,
+    service::{BoxedServerService, InternalServiceFactory},
+    socket::MioStream,
+};
+
+/// A connection a worker has taken from its channel, together with its counter guard
+/// (what `ServerWorker` hands to the service). Dropping it finishes the connection.
+pub struct InFlight {
+    conn: Conn,
+    _guard: WorkerCounterGuard,
+}
+
+impl InFlight {
+    /// listener token the connection was accepted on
+    pub fn token(&self) -> usize {
+        self.conn.token
+    }
+
+    /// read up to `buf.len()` bytes the client already wrote (non-blocking)
+    pub fn read(&mut self, buf: &mut [u8]) -> io::Result<usize> {
+        read_stream(&mut self.conn.io, buf)
+    }
+}
+
+fn read_stream(io: &mut MioStream, buf: &mut [u8]) -> io::Result<usize> {
+    match io {
+        MioStream::Tcp(s) => s.read(buf),
+        #[cfg(unix)]
+        MioStream::Uds(s) => s.read(buf),
+    }
+}
+
+/// Server-side handle of a worker (sends `Stop`).
+pub struct StopHandle(WorkerHandleServer);
+
+impl StopHandle {
+    /// `WorkerHandleServer::stop`
+    pub fn stop(&self, graceful: bool) -> oneshot::Receiver<bool> {
+        self.0.stop(graceful)
+    }
+    /// worker index
+    pub fn idx(&self) -> usize {
+        self.0.idx
+    }
+}
+
+/// The worker-side ends of a handle pair.
+pub struct WorkerEnds {
+    conn_rx: UnboundedReceiver<Conn>,
+    stop_rx: UnboundedReceiver<Stop>,
+    counter: WorkerCounter,
+    raw: Counter,
+}
+
+impl WorkerEnds {
+    /// What `ServerWorker` does in its `Available` loop: take the next connection and create its
+    /// counter guard.
+    pub fn recv(&mut self) -> Option<InFlight> {
+        match self.conn_rx.try_recv() {
+            Ok(conn) => Some(InFlight { conn, _guard: self.counter.guard() }),
+            Err(_) => None,
+        }
+    }
+
+    /// raw value of the shared atomic counter (biased by one, see `Counter::new`)
+    pub fn counter_raw(&self) -> usize {
+        self.raw.counter.load(std::sync::atomic::Ordering::SeqCst)
+    }
+
+    /// a pending `Stop` message, if any: (graceful, reply channel)
+    pub fn try_stop(&mut self) -> Option<(bool, oneshot::Sender<bool>)> {
+        self.stop_rx.try_recv().ok().map(|s| (s.graceful, s.tx))
+    }
+}
+
+/// Create the handle pair of worker `idx` exactly as `ServerWorker::start` does, but keep the
+/// worker-side ends instead of spawning a worker.
+pub fn worker_ends(idx: usize, waker: &WakerHandle, limit: usize) -> (AcceptHandle, StopHandle, WorkerEnds) {
+    let (tx1, conn_rx) = unbounded_channel();
+    let (tx2, stop_rx) = unbounded_channel();
+    let counter = Counter::new(limit);
+    let (accept, server) = handle_pair(idx, tx1, tx2, counter.clone());
+    let ends = WorkerEnds {
+        conn_rx,
+        stop_rx,
+        counter: WorkerCounter::new(idx, waker.0.clone(), counter.clone()),
+        raw: counter,
+    };
+    (AcceptHandle(accept), StopHandle(server), ends)
+}
+
+// ------------------------------------------------------------------------------------------------
+// in-thread ServerWorker over scripted services
+// ------------------------------------------------------------------------------------------------
+
+/// A service as seen by the worker: readiness + call with (guard, stream).
+pub trait VerifService {
+    /// `Service::poll_ready`
+    fn poll_ready(&self, cx: &mut Context<'_>) -> Poll<Result<(), ()>>;
+    /// `Service::call`; `conn` finishes when dropped
+    fn call(&self, conn: InFlight);
+}
+
+/// A factory the worker uses to (re)create a service.
+pub trait VerifFactory {
+    /// returns (token, service), like `InternalServiceFactory::create`
+    fn create(&self) -> LocalBoxFuture<'static, Result<(usize, Box<dyn VerifService>), ()>>;
+}
+
+struct SvcAdapter(Box<dyn VerifService>, usize);
+
+impl Service<(WorkerCounterGuard, MioStream)> for SvcAdapter {
+    type Response = ();
+    type Error = ();
+    type Future = Ready<Result<(), ()>>;
+
+    fn poll_ready(&self, cx: &mut Context<'_>) -> Poll<Result<(), ()>> {
+        self.0.poll_ready(cx)
+    }
+
+    fn call(&self, (guard, io): (WorkerCounterGuard, MioStream)) -> Self::Future {
+        self.0.call(InFlight { conn: Conn { io, token: self.1 }, _guard: guard });
+        ready(Ok(()))
+    }
+}
+
+struct FacAdapter(std::rc::Rc<dyn VerifFactory>);
+
+// SAFETY: the adapter never leaves the thread it was created on (the worker is polled in-thread).
+unsafe impl Send for FacAdapter {}
+
+impl InternalServiceFactory for FacAdapter {
+    fn name(&self, _: usize) -> &str {
+        "verif"
+    }
+
+    fn clone_factory(&self) -> Box<dyn InternalServiceFactory> {
+        Box::new(FacAdapter(self.0.clone()))
+    }
+
+    fn create(&self) -> LocalBoxFuture<'static, Result<(usize, BoxedServerService), ()>> {
+        let fut = self.0.create();
+        Box::pin(async move {
+            let (token, svc) = fut.await?;
+            Ok((token, Box::new(SvcAdapter(svc, token)) as BoxedServerService))
+        })
+    }
+}
+
+/// The real `ServerWorker` future, polled by the harness.
+pub struct WorkerDriver {
+    fut: Pin<Box<ServerWorker>>,
+    done: bool,
+}
+
+impl WorkerDriver {
+    /// Build a `ServerWorker` (state as after `ServerWorker::start`) whose services come from
+    /// `factories` (service `i` must report token `i`) and were already created once.
+    pub fn new(
+        idx: usize,
+        waker: &WakerHandle,
+        limit: usize,
+        shutdown_timeout: Duration,
+        factories: Vec<std::rc::Rc<dyn VerifFactory>>,
+        initial: Vec<Box<dyn VerifService>>,
+    ) -> (Self, AcceptHandle, StopHandle) {
+        let (tx1, conn_rx) = unbounded_channel();
+        let (tx2, stop_rx) = unbounded_channel();
+        let counter = Counter::new(limit);
+        let (accept, server) = handle_pair(idx, tx1, tx2, counter.clone());
+        let services = initial
+            .into_iter()
+            .enumerate()
+            .map(|(i, s)| WorkerService {
+                factory_idx: i,
+                status: WorkerServiceStatus::Unavailable,
+                service: Box::new(SvcAdapter(s, i)) as BoxedServerService,
+            })
+            .collect::<Vec<_>>();
+        let worker = ServerWorker {
+            conn_rx,
+            stop_rx,
+            services: services.into_boxed_slice(),
+            counter: WorkerCounter::new(idx, waker.0.clone(), counter),
+            factories: factories
+                .into_iter()
+                .map(|f| Box::new(FacAdapter(f)) as Box<dyn InternalServiceFactory>)
+                .collect::<Vec<_>>()
+                .into_boxed_slice(),
+            state: WorkerState::default(),
+            shutdown_timeout,
+        };
+        (WorkerDriver { fut: Box::pin(worker), done: false }, AcceptHandle(accept), StopHandle(server))
+    }
+
+    /// one call of the real `ServerWorker::poll`
+    pub fn poll(&mut self, cx: &mut Context<'_>) -> Poll<()> {
+        if self.done {
+            return Poll::Ready(());
+        }
+        let r = self.fut.as_mut().poll(cx);
+        if r.is_ready() {
+            self.done = true;
+        }
+        r
+    }
+
+    /// `WorkerCounter::total` as the worker sees it
+    pub fn total(&self) -> usize {
+        self.fut.counter.total()
+    }
+}
+
+// ------------------------------------------------------------------------------------------------
+// kernels
+// ------------------------------------------------------------------------------------------------
+
+/// `Counter` kernels on a fresh counter pre-set to `value`: (`inc()` result, value after)
+pub fn kernel_counter_inc(value: usize, limit: usize) -> (bool, usize) {
+    let c = Counter::new(limit);
+    c.counter.store(value, std::sync::atomic::Ordering::SeqCst);
+    let r = c.inc();
+    (r, c.counter.load(std::sync::atomic::Ordering::SeqCst))
+}
+
+/// (`dec()` result, value after)
+pub fn kernel_counter_dec(value: usize, limit: usize) -> (bool, usize) {
+    let c = Counter::new(limit);
+    c.counter.store(value, std::sync::atomic::Ordering::SeqCst);
+    let r = c.dec();
+    (r, c.counter.load(std::sync::atomic::Ordering::SeqCst))
+}
+
+/// initial raw value of a new counter
+pub fn kernel_counter_new(limit: usize) -> usize {
+    Counter::new(limit).counter.load(std::sync::atomic::Ordering::SeqCst)
+}
+
+/// `Availability::offset` (panics for idx >= 512)
+pub fn kernel_offset(idx: usize) -> (usize, usize) {
+    Availability::offset(idx)
+}
+
+/// The availability bitset, for kernel agreement.
+#[derive(Default)]
+pub struct AvailKernel(Availability);
+
+impl AvailKernel {
+    /// from four words
+    pub fn from_words(w: [u128; 4]) -> Self {
+        AvailKernel(Availability::from_words(w))
+    }
+    /// the four words
+    pub fn words(&self) -> [u128; 4] {
+        self.0.words()
+    }
+    /// `get_available`
+    pub fn get(&self, idx: usize) -> bool {
+        self.0.get_available(idx)
+    }
+    /// `set_available`
+    pub fn set(&mut self, idx: usize, v: bool) {
+        self.0.set_available(idx, v)
+    }
+    /// `available`
+    pub fn any(&self) -> bool {
+        self.0.available()
+    }
+}
